@@ -61,50 +61,54 @@ def check(ctx: Ctx) -> None:
 
     with ctx.obligation("C03.b", "transition-complete") as ob:
         # -- Channel.close
+        from ..util import xtext
         cfg = build_cfg(repo, f_close, Oracle(repo, f_close, precise=True))
-        base = Facts(repo, f_close, {})
-        base.set_atom("self._closed", False)
-        base.set_atom("self._executing", False)
+        base = Facts(repo, f_close, {}, expand_locals=True)
+        base.assume_src("self._closed", False)
+        base.assume_src("self._executing", False)
+        X = lambda e: xtext(repo, f_close, e)  # noqa: E731
         npaths = 0
         for path, facts in feasible_paths(repo, f_close, cfg, base, kill_on_store=False):
             if path[-1][0] != cfg.exit.id:
                 continue
             npaths += 1
-            has = lambda pred: _path_has(cfg, path, pred)
+            has = lambda pred: _path_has(cfg, path, pred)  # noqa: E731
             closed = has(lambda nd: isinstance(nd.ast, ast.Assign) and unparse(nd.ast.targets[0]) == "self._closed" and repo.fold_in(nd.ast.value, f_close) is True)
-            rc = has(lambda nd: any(callee_attr(c) == "set" and unparse(c.func.value) == "self._receiveclosed" for c in calls_in_node(nd)))
-            nlo = has(lambda nd: any(callee_attr(c) == "_no_longer_opened" and c.args and unparse(c.args[0]) == "self.id" for c in calls_in_node(nd)))
-            hasq = facts.get("queue is None")
-            put = has(lambda nd: any(callee_attr(c) == "put" and unparse(c.args[0]) == "ENDMARKER" for c in calls_in_node(nd)))
+            rc = has(lambda nd: any(callee_attr(c) == "set" and X(c.func.value) == "self._receiveclosed" for c in calls_in_node(nd)))
+            nlo = has(lambda nd: any(callee_attr(c) == "_no_longer_opened" and c.args and X(c.args[0]) == "self.id" for c in calls_in_node(nd)))
+            hasq = facts.value_src("self._items is None")
+            put = has(lambda nd: any(callee_attr(c) == "put" and unparse(c.args[0]) == "ENDMARKER" and X(c.func.value) == "self._items" for c in calls_in_node(nd)))
             ob.site(f_close, f_close.node, "Channel.close transition path", closed=closed, receiveclosed=rc, unregistered=nlo, queue_is_None=hasq, endmarker=put)
             miss = [k for k, v in (("_closed = True", closed), ("_receiveclosed.set()", rc), ("_no_longer_opened(self.id)", nlo)) if not v]
-            if hasq is False and not put:
+            if hasq is not True and not put:
                 miss.append("queue.put(ENDMARKER)")
             if miss:
                 ob.violation(f_close, f_close.node, f"a path through Channel.close makes the closed transition without {', '.join(miss)}",
                              construct="close missing " + ",".join(miss), path=cfg.describe_path(path))
         ob.require(npaths >= 2, "Channel.close: transition paths not found")
-        qa = [n for n in repo.own_nodes(f_close) if isinstance(n, ast.Assign) and unparse(n.targets[0]) == "queue"]
-        if not qa or unparse(qa[0].value) != "self._items":
-            ob.violation(f_close, f_close.node, "Channel.close does not take the ENDMARKER queue from self._items")
         # -- ChannelFactory._local_close
         cfg2 = build_cfg(repo, f_lclose, Oracle(repo, f_lclose, precise=True))
+        idp = f_lclose.params()[1]
+        chan = [n for n in repo.own_nodes(f_lclose) if isinstance(n, ast.Assign) and isinstance(n.value, ast.Call) and callee_attr(n.value) == "get" and "_channels" in unparse(n.value)]
+        ob.require(len(chan) == 1, "_local_close: channel lookup `self._channels.get(id)` not found")
+        CH = xtext(repo, f_lclose, chan[0].value)
+        X2 = lambda e: xtext(repo, f_lclose, e)  # noqa: E731
         for sendonly in (False, True):
             for found in (False, True):
-                base = Facts(repo, f_lclose, {})
-                base.set_atom("sendonly", sendonly)
-                base.set_atom("channel is None", not found)
+                base = Facts(repo, f_lclose, {}, expand_locals=True)
+                base.assume_src("sendonly", sendonly)
+                base.assume_src(f"{CH} is None", not found)
                 k = 0
                 for path, facts in feasible_paths(repo, f_lclose, cfg2, base, kill_on_store=False):
                     if path[-1][0] != cfg2.exit.id:
                         continue
                     k += 1
-                    has = lambda pred: _path_has(cfg2, path, pred)
-                    nlo = has(lambda nd: any(callee_attr(c) == "_no_longer_opened" and c.args and unparse(c.args[0]) == "id" for c in calls_in_node(nd)))
-                    closed = has(lambda nd: isinstance(nd.ast, ast.Assign) and unparse(nd.ast.targets[0]) == "channel._closed" and repo.fold_in(nd.ast.value, f_lclose) is True)
-                    rc = has(lambda nd: any(callee_attr(c) == "set" and unparse(c.func.value) == "channel._receiveclosed" for c in calls_in_node(nd)))
-                    put = has(lambda nd: any(callee_attr(c) == "put" and unparse(c.args[0]) == "ENDMARKER" for c in calls_in_node(nd)))
-                    hasq = facts.get("queue is None")
+                    has = lambda pred: _path_has(cfg2, path, pred)  # noqa: E731
+                    nlo = has(lambda nd: any(callee_attr(c) == "_no_longer_opened" and c.args and X2(c.args[0]) == idp for c in calls_in_node(nd)))
+                    closed = has(lambda nd: isinstance(nd.ast, ast.Assign) and X2(nd.ast.targets[0]) == f"{CH}._closed" and repo.fold_in(nd.ast.value, f_lclose) is True)
+                    rc = has(lambda nd: any(callee_attr(c) == "set" and X2(c.func.value) == f"{CH}._receiveclosed" for c in calls_in_node(nd)))
+                    put = has(lambda nd: any(callee_attr(c) == "put" and unparse(c.args[0]) == "ENDMARKER" and X2(c.func.value) == f"{CH}._items" for c in calls_in_node(nd)))
+                    hasq = facts.value_src(f"{CH}._items is None")
                     ob.site(f_lclose, f_lclose.node, f"_local_close path (channel {'found' if found else 'gone'}, sendonly={sendonly})",
                             closed=closed, receiveclosed=rc, unregistered=nlo, endmarker=put)
                     miss = []
@@ -115,15 +119,12 @@ def check(ctx: Ctx) -> None:
                             miss.append("_receiveclosed.set()")
                         if closed == sendonly:
                             miss.append("_closed = True iff not sendonly")
-                        if hasq is False and not put:
+                        if hasq is not True and not put:
                             miss.append("queue.put(ENDMARKER)")
                     if miss:
                         ob.violation(f_lclose, f_lclose.node, f"_local_close (channel {'found' if found else 'gone'}, sendonly={sendonly}) lacks {', '.join(miss)}",
                                      construct=f"_local_close[{found},{sendonly}] missing " + ",".join(miss), path=cfg2.describe_path(path))
                 ob.require(k >= 1, "_local_close: no path for a case")
-        qa = [n for n in repo.own_nodes(f_lclose) if isinstance(n, ast.Assign) and unparse(n.targets[0]) == "queue"]
-        if not qa or unparse(qa[0].value) != "channel._items":
-            ob.violation(f_lclose, f_lclose.node, "_local_close does not take the ENDMARKER queue from the channel's own _items")
         # ENDMARKER queued before waiters are released
         for fi, cf, ev in ((f_close, cfg, "self._receiveclosed"), (f_lclose, cfg2, "channel._receiveclosed")):
             puts = cfg_nodes_with_call(cf, lambda c: callee_attr(c) == "put" and unparse(c.args[0]) == "ENDMARKER")
@@ -215,7 +216,7 @@ def check(ctx: Ctx) -> None:
             ob.require(k >= 1, "__del__: no path for the opened state")
 
     with ctx.obligation("C03.g", "same-stream") as ob:
-        callers = sorted({f.short for f, _c in repo.callsites(f"{GB}.Message.to_io")})
+        callers = sorted({f.short for f, _c in repo.callsites_flat(f"{GB}.Message.to_io")})
         ob.site(repo.func(f"{GB}.Message.to_io"), None, "to_io callers", callers=callers)
         if callers != ["BaseGateway._send", "serve_proxy_io"]:
             ob.violation(repo.func(f"{GB}.Message.to_io"), None, f"Message.to_io is called from {callers}: frames could bypass the single ordered send path", construct=f"callers {callers}")
@@ -225,7 +226,7 @@ def check(ctx: Ctx) -> None:
                 ob.violation(fsend, c, "_send defers the write (queue/thread): close frames could overtake data frames")
         tio = [c for c in repo.calls_in(fsend) if callee_attr(c) == "to_io"]
         ob.site(fsend, tio[0] if tio else fsend.node, "_send writes synchronously to the gateway's io")
-        if len(tio) != 1 or unparse(tio[0].args[0]) != "self._io":
+        if len(tio) != 1 or xtext(repo, fsend, tio[0].args[0]) != "self._io":
             ob.violation(fsend, fsend.node, "_send does not write the frame synchronously to self._io")
         consts = repo.cls("Message").consts
         n = 0
